@@ -698,6 +698,8 @@ SAME_MEANING = {
     ('enumeration_values', 0): [],
 }
 DISTINCT_TEMPLATES = {
+    # the variable blocks of a POU stay in the order they are written in (private variables before or between the parameters)
+    'pou_var_block_order': [('alt', ['FUNCTION f : INT\n', 'FUNCTION_BLOCK f\n', 'PROGRAM f\n']), ('alt', ['VAR\n  a : INT;\nEND_VAR\nVAR_INPUT\n  b : INT;\nEND_VAR\n', 'VAR_INPUT\n  b : INT;\nEND_VAR\nVAR\n  a : INT;\nEND_VAR\n', 'VAR\n  a : INT;\nEND_VAR\nVAR_INPUT\n  b : INT;\nEND_VAR\nVAR_OUTPUT\n  c : INT;\nEND_VAR\n', 'VAR_INPUT\n  b : INT;\nEND_VAR\nVAR_OUTPUT\n  c : INT;\nEND_VAR\nVAR\n  a : INT;\nEND_VAR\n', 'VAR_OUTPUT\n  c : INT;\nEND_VAR\nVAR\n  a : INT;\nEND_VAR\nVAR_INPUT\n  b : INT;\nEND_VAR\n', 'VAR_INPUT\n  b : INT;\nEND_VAR\nVAR\n  a : INT;\nEND_VAR\nVAR_OUTPUT\n  c : INT;\nEND_VAR\n', 'VAR\n  a : INT;\nEND_VAR\nVAR_OUTPUT\n  c : INT;\nEND_VAR\nVAR_INPUT\n  b : INT;\nEND_VAR\n']), '  a := 1;\n', ('dep', 0, ['END_FUNCTION\n', 'END_FUNCTION_BLOCK\n', 'END_PROGRAM\n'])],
     'sfc_action_qualifiers': ['FUNCTION_BLOCK fb\nVAR\n  done : BOOL;\n  tv : TIME;\nEND_VAR\nINITIAL_STEP Start:\nEND_STEP\nSTEP Work:\n  act(', ('alt', ['N', 'R', 'S', 'P', 'L', 'D', 'SD, T#1s', 'DS, T#1s', 'SL, T#1s', 'P1, T#1s', 'P0, T#1s', 'SD, T#2s', 'SD, tv', 'DS, tv', 'SL, tv', 'N, done', 'DS, T#1s, done', 'SD, T#1s, done']),
                               ');\nEND_STEP\nTRANSITION FROM Start TO Work\n  := done;\nEND_TRANSITION\nACTION act:\n  done := TRUE;\nEND_ACTION\nEND_FUNCTION_BLOCK\n'],
     'var_sections': ['FUNCTION_BLOCK fb\n', ('alt', ['VAR', 'VAR_INPUT', 'VAR_OUTPUT', 'VAR_IN_OUT', 'VAR_EXTERNAL', 'VAR_TEMP']), ('alt', ['', ' RETAIN', ' CONSTANT', ' NON_RETAIN']), '\n  x : ', ('alt', ['INT', 'DINT', 'BOOL', 'REAL', 'TIME', 'mytype']), ('alt', ['', ' := 1', ' := 2']), ';\nEND_VAR\nEND_FUNCTION_BLOCK\n'],
@@ -759,7 +761,7 @@ def _k9_templates():
         if k in K10.TEMPLATES: d[k] = K10.TEMPLATES[k]
     return d
 
-WELL_FORMED = ['sfc_transitions', 'statements', 'literal_kinds', 'array_initial_values', 'structure_initialisers', 'enumeration_values', 'case_selectors', 'for_and_loops', 'access_and_program_storage', 'located_and_access']
+WELL_FORMED = ['pou_var_block_order', 'sfc_transitions', 'statements', 'literal_kinds', 'array_initial_values', 'structure_initialisers', 'enumeration_values', 'case_selectors', 'for_and_loops', 'access_and_program_storage', 'located_and_access']
 
 def _replay_must_parse(src):
     def rp(ctx):
